@@ -105,6 +105,10 @@ Definition procs_acyclic (ps : list procdef) : bool :=
   let uses := map (proc_uses ps) ps in
   (length (kahn (length ps) uses []) =? length ps)%nat.
 
+(* F31: the keyword self cannot name a process (the processes made for exec carry a generated identifier) *)
+Definition providers_not_self (ps : list procdef) : bool :=
+  forallb (fun p => forallb (fun n => negb (is_self n && (ident n =? "")%string)) (pr_providers p)) ps.
+
 Definition prelim_procs (D : tenv) (ps : list procdef) (assumed : list name) : tcr (list procdef * list name) :=
   tdo _ <- guard (all_names_unique assumed) "assumed names defined more than once";
   tdo _ <- guard (forallb (fun n => match nty n with Some _ => true | None => false end) assumed) "assumed name has no declared type";
@@ -116,6 +120,7 @@ Definition prelim_procs (D : tenv) (ps : list procdef) (assumed : list name) : t
   tdo (ps', remaining) <- prelim_procs_types D ps (map (fun n => (ident n, true)) assumed') (map (fun x => (x, true)) allp);
   tdo _ <- guard (negb (existsb snd remaining)) "assumed name has never been used";
   tdo _ <- guard (procs_acyclic ps) "processes depend on each other cyclically";
+  tdo _ <- guard (providers_not_self ps) "self used as the name of a process";
   TOk (ps', assumed').
 
 (* produceFunctionDefinitionsEnvironment *)
